@@ -234,7 +234,7 @@ fn walk(dir: &std::path::Path, out: &mut Vec<String>) {
 
 pub fn run(run: &Run) {
     let quick = run.quick();
-    run.set_rule("(i) every string of <= 3 (thorough 4) tokens over each grammar's token alphabet (26 / 40 tokens + 6 boundary numerals) for the program, theory, specification, user-guide and proof-outline parsers; (ii) for every .lp/.spec/.ug/.po file under res/examples and tests/ui: every single-token edit (delete, duplicate, swap with neighbour, inflate an identifier/numeral with 23 digits, replace by each alphabet token) at every position and every pair of deletions within a window of 4 tokens (quick: a stride of the files); every accepted text is pushed through all later stages (tau*, natural, mu, gamma, completion, portfolios x strategies, default and TPTP formatting, tightness, regularity, strong and external task assembly with fixed partners); oracle: no panic (catch_unwind + panic hook), no input slower than 5 s; non-trivial = accepted texts (hashed to 2048 buckets)");
+    run.set_rule("(i) every string of <= 3 (thorough 4) tokens over each grammar's token alphabet (26 / 40 tokens + 6 boundary numerals) for the program, theory, specification, user-guide and proof-outline parsers; (ii) for every .lp/.spec/.ug/.po file under res/examples and tests/ui: every single-token edit (delete, duplicate, swap with neighbour, inflate an identifier/numeral with 23 digits, replace by each alphabet token) at every position and every pair of deletions within a window of 4 tokens (quick: a stride of the files); (iii) every formula of C07's families as a theory / specification entry / lemma and every program of C01's alphabets (quick: strides); every accepted text is pushed through all later stages (tau*, natural, mu, gamma, completion, portfolios x strategies, default and TPTP formatting, tightness, regularity, strong and external task assembly with fixed partners); oracle: no panic (catch_unwind + panic hook), no input slower than 5 s; non-trivial = accepted texts (hashed to 2048 buckets)");
     run.assume("the property's quantifier (all byte strings up to a few KB) is not enumerable; the claim is limited to the stated edit/length bounds");
     run.assume("a genuine hang would stall the run and is caught by the driver's wall-clock limit, not classified in-process");
     // (i) token strings
@@ -349,6 +349,29 @@ pub fn run(run: &Run) {
         let origin = path.clone();
         muts.par_iter().for_each(|m| check(run, kind, m, &origin));
     }
+    // (iii) the alphabets of the semantic explorers as accepted inputs of every later stage: every
+    // formula of C07's families as a theory and as a specification entry, every program of C01's
+    // alphabets (quick: strides)
+    let forms = crate::c07::inputs(quick);
+    run.count("family_formulas_as_theories", forms.len() as u64);
+    forms.par_iter().enumerate().for_each(|(i, f)| {
+        if quick && i % 3 != 0 {
+            return;
+        }
+        check(run, Kind::Theory, &format!("{f}."), "formula family");
+        if i % 7 == 0 {
+            check(run, Kind::Specification, &format!("spec: {f}."), "formula family");
+            check(run, Kind::Outline, &format!("lemma: {f}."), "formula family");
+        }
+    });
+    let progs = crate::c01::inputs(true);
+    run.count("alphabet_programs", progs.len() as u64);
+    progs.par_iter().enumerate().for_each(|(i, p)| {
+        if quick && i % 4 != 0 {
+            return;
+        }
+        check(run, Kind::Program, p, "program alphabet");
+    });
     run.sample(json!({"example_token_string": "p ( X ) :- 9223372036854775808", "example_mutant_of": files.first()}));
 }
 
